@@ -26,11 +26,17 @@ const WATCH_TYPES: &[(&str, &[&str])] = &[
     ("set", &["SADD w a"]),
     ("zset", &["ZADD w 1 a"]),
     ("string+ttl", &["SET w a EX 100000"]),
+    // two-slot containers: a write can permute the content among the slots without adding or removing any string
+    ("hash2", &["HSET w f a g b"]),
+    ("list2", &["RPUSH w a b"]),
+    ("zset2", &["ZADD w 1 a 2 b"]),
 ];
 /// (label, command, does it change the VALUE (type/content/existence) of w when w has the given type?)
 const B_WRITES: &[&str] = &[
     "none", "SET w a", "SET w other", "APPEND w x", "DEL w", "LPUSH w x", "HSET w f b", "SADD w m", "ZADD w 2 m", "EXPIRE w 100000", "SET u 1",
     "RPUSH w a", "HSET w f a",
+    // permutations of existing content: swap the values of two hash fields, rotate a list, swap two scores
+    "HSET w f b g a", "RPOPLPUSH w w", "ZADD w 2 a 1 b",
 ];
 const POSITIONS: &[&str] = &["before-watch", "watch-multi", "multi-body", "body-exec"];
 
@@ -564,7 +570,7 @@ fn main() {
         "two_transactions_on_one_connection_scenarios": chained,
         "executor_level_scenarios": ex_items.len(),
         "exhaustive": true,
-        "rule": "connection level: (all bodies of <=3 commands over 12 body ops incl. run-time failure, unknown command, wrong arity, nested MULTI, WATCH inside MULTI) x {EXEC, DISCARD}; and WATCH scenarios: 7 watched-key types x 13 writes by a second connection x 4 positions x small bodies (plus re-WATCH / UNWATCH / WATCH k w right before MULTI); and two transactions in a row on one connection (first: bodies <=2 over {SET, INCR, unknown command, wrong arity} x {EXEC, DISCARD} x {no WATCH, WATCH kept, WATCH broken by B}; second: bodies <=1 x the same three WATCH variants); every scenario is executed on the real handler (2 connections, one state, strictly sequential) and on a twin server that runs the queued commands without MULTI; executor level: same oracle on a bare CommandExecutor",
+        "rule": "connection level: (all bodies of <=3 commands over 12 body ops incl. run-time failure, unknown command, wrong arity, nested MULTI, WATCH inside MULTI) x {EXEC, DISCARD}; and WATCH scenarios: 10 watched-key types (incl. two-slot hash/list/zset) x 16 writes by a second connection (incl. content-permuting writes) x 4 positions x small bodies (plus re-WATCH / UNWATCH / WATCH k w right before MULTI); and two transactions in a row on one connection (first: bodies <=2 over {SET, INCR, unknown command, wrong arity} x {EXEC, DISCARD} x {no WATCH, WATCH kept, WATCH broken by B}; second: bodies <=1 x the same three WATCH variants); every scenario is executed on the real handler (2 connections, one state, strictly sequential) and on a twin server that runs the queued commands without MULTI; executor level: same oracle on a bare CommandExecutor",
     });
     rep.finish(
         coverage,
